@@ -73,6 +73,7 @@ struct OpRec
     struct TermF { int term; int64_t off; int64_t len; uint32_t seq; };
     std::vector<TermF> termfs;
     struct Lex { int64_t pos; int line; int col; int idx; int64_t len; uint32_t seq; int verbose; int64_t end_pos; int64_t inst_calls; int64_t inst_last; };
+    int own_copy_depth = 0;
     int64_t lexer_state_clobbered = 0;
     // re-entrancy: at functor call #nest_at of this call, the NEXT op of the task is executed from inside the functor
     int64_t nest_at = -1;
@@ -140,7 +141,9 @@ void node_del(const void* addr, uint32_t vid, bool holds_value);
 void node_use(uint32_t vid, bool moved_from);                 // value handed to a functor as argument
 void node_assign_over(const void* addr, uint32_t old_vid, bool held_value);
 void trivial_copy();                                          // a copy of the trivially destructible value type was made
-void node_lvalue_arg(uint32_t vid);                           // a functor received the value as an lvalue (cannot be moved from by a by-value parameter)
+void node_lvalue_arg(uint32_t vid);
+int64_t copies_so_far();
+void own_copies(int delta);                                    // +1/-1 around a copy the functor itself asks for (not the library's)                                       // copies made during the current call (ledgered objects)                           // a functor received the value as an lvalue (cannot be moved from by a by-value parameter)
 
 // allocator control
 void set_alloc_tracking(bool on);
